@@ -208,8 +208,9 @@ def engine_event_obligations(ctx, rule):
                detail=f"args {[short(a, 50) for a in args]}; in_axes {short(ia or ())}",
                stmt=f"{mname} arguments")
         out = call if field is None else ("a", call, field)
-        st = [(val, cond) for loc, val, _, cond in res.stores if loc == ks_f]
-        ok_store = len(st) == 1 and st[0][0] == out and tuple(st[0][1]) == tuple(ccond)
+        # (other events written out in the same method may store their own results)
+        st = [(val, cond) for loc, val, _, cond in res.stores if loc == ks_f and val == out]
+        ok_store = len(st) == 1 and tuple(st[0][1]) == tuple(ccond)
         ctx.ob(rule, fi, f"the kernel states returned by {ev} become the engine's kernel "
                          f"states (on every path that made the call)", ok_store,
                detail=str([short(v, 80) for v, _ in st]), stmt=f"{mname} stores kernel states")
